@@ -48,3 +48,22 @@ theorem emit_tokens {U A : Type} (step : List U → A → List U) (tok : A → L
   induction s with
   | nil => intro out; simp [run]
   | cons a s ih => intro out; simp [run, h, ih, List.flatMap_cons, List.append_assoc]
+
+/-
+C22: PKCS#7-style padding as proved of `encryptAESBytes` (the plaintext followed by `c` bytes of value
+`c`, `1 ≤ c ≤ 16`) and the strip rule proved of `decryptAESBytes` (drop `last` bytes when
+`last ≤ 16`) compose to the identity on every byte string, the empty one included.
+-/
+def strip (d : List Nat) : List Nat :=
+  match d.getLast? with
+  | some l => if l ≤ 16 then d.take (d.length - l) else d
+  | none => d
+
+theorem pad_strip (b : List Nat) (c : Nat) (h1 : 1 ≤ c) (h16 : c ≤ 16) :
+    strip (b ++ List.replicate c c) = b := by
+  have hlast : (b ++ List.replicate c c).getLast? = some c := by
+    simp [List.getLast?_append, List.getLast?_replicate]
+    omega
+  unfold strip
+  rw [hlast]
+  simp [h16]
